@@ -563,6 +563,9 @@ func TestVerifC16(t *testing.T) {
 		}
 	}
 
+	if k.n["laws.incomparability-not-transitive.triples"] > 0 {
+		rec.Note("measured, not judged: under the real Better, incomparability is not transitive when OS versions have different numbers of components (semverCmp(\"10.0\", \"10.0.17763.1\") = 0 but 10.0.17763.1 < 10.0.20348.1; counter laws.incomparability-not-transitive.triples, example in incomparability_not_transitive_example). Better is still a strict partial order, so a linear scan returns a maximal element for every list and order; WHICH of several incomparable entries is returned then depends on the list order, which DESIGN 4b explicitly allows")
+	}
 	// (c) platform strings, sharded by string number
 	k.parseAll(U, local)
 
